@@ -47,12 +47,12 @@ Definition Hello : schema :=
      s_optdict_optional := false; s_payload := None; s_special := SpHello; s_combo := false |}.
 
 (* Welcome.parse: six details.get() without validation, then resumed/resumable/resume_token, roles, custom.
-   Welcome.marshal: every option under `if self.x:`; 'authmethod' under `if self.authrole:` *)
+   Welcome.marshal: every option under `if self.x:` (authmethod too, since fix a9cc81d8) *)
 Definition Welcome : schema :=
   {| s_name := "Welcome"; s_type := 2;
      s_slots := [idf "session"; SOpts];
      s_opts := [o_get "realm" MTruthy CStr; o_get "authid" MTruthy CStr; o_get "authrole" MTruthy CStr;
-                o_get "authmethod" (MGatedBy 2) CStr; o_get "authprovider" MTruthy CStr;
+                o_get "authmethod" MTruthy CStr; o_get "authprovider" MTruthy CStr;
                 o_get "authextra" MTruthy CDict;
                 o_tr "resumed" OBool; o_tr "resumable" OBool;
                 (* `if "resume_token" in details: ... elif resumable: raise ProtocolError` *)
@@ -119,7 +119,7 @@ Definition Register : schema :=
 
 Definition Registered : schema := plain "Registered" 65 [idf "request"; idf "registration"] [].
 
-(* Unregister.__init__ has no forward_for assertions at all *)
+(* Unregister.__init__ has no forward_for assertions at all (parse validates the entries since fix ea2362f8) *)
 Definition Unregister : schema :=
   optional_dict "Unregister" 66 [idf "request"; idf "registration"; SOpts]
     [opt "forward_for" "forward_for" OFwd MTruthy CNone] false.
